@@ -1842,7 +1842,7 @@ _generations_tuple(PyObject* ro)
 static PyObject*
 verify_changed(VB* self, PyObject* ignored)
 {
-    PyObject *t, *ro;
+    PyObject *t, *ro, *generations;
 
     VB_clear(self);
 
@@ -1865,13 +1865,20 @@ verify_changed(VB* self, PyObject* ignored)
     if (ro == NULL)
         return NULL;
 
-    self->_verify_generations = _generations_tuple(ro);
-    if (self->_verify_generations == NULL) {
+    generations = _generations_tuple(ro);
+    if (generations == NULL) {
         Py_DECREF(ro);
         return NULL;
     }
 
+    /* Reading ``ro`` and ``_generation`` can run Python code that calls
+       ``changed()`` again: release what that call stored. */
+    t = self->_verify_generations;
+    self->_verify_generations = generations;
+    Py_XDECREF(t);
+    t = self->_verify_ro;
     self->_verify_ro = ro;
+    Py_XDECREF(t);
 
     Py_INCREF(Py_None);
     return Py_None;
